@@ -57,3 +57,5 @@ PROP = dict(
 PROP["technique"] += " + the entry codec (OffsetAndSizeAndSlot.Bytes, uvarintReader.ReadUvarint/ReadByte, Bitmap.Get/Set, encodeUvarint) translated on every run (GoLite) and proved equal to the model's entry_enc / rd_uv / uvarint; the record decoder (OffsetAndSizeAndSlotSliceFromBytes with its loop + FromReader) translated likewise and proved equal to the model's entries_dec for every byte string"
 PROP["level_text"] += "; the linked-log entry codec functions are translated from the Go source on every run and proved to be the model's entry_enc / rd_uv / uvarint, with encoding/binary's uvarint functions as an oracle equal to Codec.uvarint (C06_translated_* theorems); the record decoder that ReadWithSize runs on every decompressed payload (OffsetAndSizeAndSlotSliceFromBytes: the loop, FromReader, the silent end at io.EOF through the %w wrapping) is translated likewise and proved to be the model's entries_dec for every byte string, hence the identity on the writer's payload (C06_translated_record_decoder_is_entries_dec, ..._roundtrip)"
 PROP["trusted"] = ['translator gen/golite.go (Go leaf functions -> terms of the GoLite fragment, re-run on every check) and the semantics coq/GoLite.v (fixed-width wrap-around, panics on bad index / slice / shift / division, fuel for loops and calls; capacity identified with length; out-parameters for slices written through; aliasing of two arguments not detected) - DESIGN.md section 10a; exercised by the vm_compute examples of the property file'] + list(PROP.get("trusted", []))
+PROP["technique"] += " + (*LinkedLog).ReadWithSize itself (limit, bounds check, positioned read, the record's own length prefix, pointer to the previous record, decompression, entry decoder) translated on every run and proved equal to the model's read_with_size for every file, offset and size"
+PROP["level_text"] += "; the record reader (*LinkedLog).ReadWithSize - the function whose length-prefix handling was repaired on the pinned tree - is translated from the Go source on every run together with decompressIndexes and proved, for every file, offset and size, to be the model's read_with_size (the file, binary.Uvarint, DecompressZstd and indexes.OffsetAndSize.FromBytes are oracles; the last one is itself translated and proved in C01): C06_translated_ReadWithSize_is_read_with_size"
